@@ -114,6 +114,30 @@ lt_enum(latnode_t *n, latnode_t *end, int score, char *proj, size_t plen, int de
     proj[l0] = 0;
 }
 
+/* best start-to-end score by dynamic programming over the (acyclic) graph, for lattices with too many paths to list */
+static int LT_DPV[LT_MAXN];
+static unsigned char LT_DPS[LT_MAXN];
+static int
+lt_dp(latnode_t *n, latnode_t *end, int depth)
+{
+    int i = lt_index(n), best = INT_MIN / 2;
+    latlink_list_t *x;
+    if (n == end)
+        return 0;
+    if (i < 0 || depth > LT_MAXN)
+        return INT_MIN / 2;
+    if (LT_DPS[i])
+        return LT_DPV[i];
+    for (x = n->exits; x; x = x->next) {
+        int v = lt_dp(x->link->to, end, depth + 1);
+        if (v > INT_MIN / 4 && v + x->link->ascr > best)
+            best = v + x->link->ascr;
+    }
+    LT_DPS[i] = 1;
+    LT_DPV[i] = best;
+    return best;
+}
+
 /* can segments k.. be matched to a chain of nodes, the first of which follows `prev` over a link ending at prev_ef? */
 static int
 lt_chain(const dc_seg_t **segs, int ns, int k, latnode_t *prev, int prev_ef, int *fail_at, const char **why)
@@ -359,6 +383,12 @@ check_lattice(const gspec_t *g, const dc_result_t *R, int T, const char *cd, con
         for (k = 0; k < LT_NPATHS; k++)
             if (LT_PATHS[k].score > best)
                 best = LT_PATHS[k].score;
+        if (!LT_PATHS_COMPLETE) {
+            /* too many paths to list: the best score still comes from an independent dynamic program */
+            memset(LT_DPS, 0, sizeof LT_DPS);
+            best = lt_dp(dag->start, dag->end, 0);
+            mc_count(8, 1);
+        }
         /* best path */
         bl = lattice_bestpath(dag, ascale);
         if (dag->start != dag->end) {
@@ -366,7 +396,7 @@ check_lattice(const gspec_t *g, const dc_result_t *R, int T, const char *cd, con
                 mc_viol("C12/bestpath-finds-nothing", cd, "%s: lattice_bestpath returned NULL on a lattice with %d paths; %s", when, LT_NPATHS, rs);
                 return -1;
             }
-            if (LT_PATHS_COMPLETE && bl->path_scr + dag->final_node_ascr != best) {
+            if (best > INT_MIN / 4 && bl->path_scr + dag->final_node_ascr != best) {
                 mc_viol("C12/bestpath-not-the-highest-scoring-path", cd, "%s: best path score %d, the best of all %d start-to-end paths scores %d; %s", when,
                         bl->path_scr + dag->final_node_ascr, LT_NPATHS, best, rs);
                 return -1;
@@ -490,11 +520,11 @@ check_lattice(const gspec_t *g, const dc_result_t *R, int T, const char *cd, con
                         hyp_iter_free(it);
                         return -1;
                     }
-                    if (first && sc != best) {
-                        mc_viol("C12/nbest-first-is-not-the-best-path", cd, "%s: first hypothesis scores %d, the best path %d; %s", when, sc, best, rs);
-                        hyp_iter_free(it);
-                        return -1;
-                    }
+                }
+                if (first && sc != best && best > INT_MIN / 4) {
+                    mc_viol("C12/nbest-first-is-not-the-best-path", cd, "%s: first hypothesis scores %d, the best path %d; %s", when, sc, best, rs);
+                    hyp_iter_free(it);
+                    return -1;
                 }
                 first = 0;
                 if (nh >= 3000) {
